@@ -777,6 +777,39 @@ def runAll (fuel : Nat) : State → (bufs : List (List Nat)) → (caps : List Na
       if isTerminal r.code then some r
       else runAll fuel r.st bs [] r.emitted
 
+/-! ## arbitrary call sequences (used by C16) -/
+
+/-- one protocol operation, as in the driver's call tokens `N`, `S:<in>:<cap>`, `F:<cap>`, `Z` -/
+inductive Op where
+  | N
+  | S (inp : List Nat) (cap : Nat)
+  | F (cap : Nat)
+  | Z
+  deriving DecidableEq, Repr
+
+/-- bytes offered / room offered by an operation -/
+def Op.inLen : Op → Nat
+  | .S inp _ => inp.length
+  | _ => 0
+def Op.room : Op → Nat
+  | .S _ cap => cap
+  | .F cap => cap
+  | _ => 0
+
+/-- what the driver does for one call token -/
+def applyOp (s : State) : Op → Outcome Ret
+  | .N => ok ⟨newBrotliFile s, SUCCESS, 0, []⟩
+  | .S inp cap => stream s inp cap
+  | .F cap => finish s cap
+  | .Z => (saveRestore s).bind fun s' => ok ⟨s', SUCCESS, 0, []⟩
+
+/-- protocol condition for a fresh `new()` instance: `new_brotli_file` comes before the first `stream` -/
+def announcedFirst : List Op → Bool
+  | [] => true
+  | .N :: _ => true
+  | .S _ _ :: _ => false
+  | _ :: rest => announcedFirst rest
+
 /-- a whole concatenation: for every member `new_brotli_file`, then `runAll` over that member's
 input buffers under its capacity schedule; stops at the first terminal code -/
 def concatAll (fuel : Nat) : State → List (List (List Nat) × List Nat) → List Nat → Option Run
